@@ -789,7 +789,10 @@ func (t *tree) parseHeaderParam(token item) ast.Node {
 func Expr(str string) (node ast.Node, err error) {
 	var t = &tree{lex: lexExpr("", str)}
 	defer t.recover(&err)
-	return t.parseExpr(0), err
+	node = t.parseExpr(0)
+	// let the scanner goroutine exit even if tokens follow the expression.
+	t.lex.drain()
+	return node, nil
 }
 
 // boolAttr returns a boolean value from the given attribute map.
